@@ -130,6 +130,17 @@ def run_real(case: dict, scratch):
     k = KIND[case["kind"]]
     data = FloatDataType(k["data"]) if k["data"] is not None else None
     real = harness.run_pipeline(pipe, data, case["ctx"], scratch)
+    # the same in-memory node definitions used again (a second Pipeline from the same list): expanding a sweep must not consume
+    # or alter the caller's configuration
+    try:
+        pipe2 = Pipeline(pc.nodes)
+        data2 = FloatDataType(k["data"]) if k["data"] is not None else None
+        real2 = harness.run_pipeline(pipe2, data2, case["ctx"], scratch)
+        second = (real2.status, real2.data, real2.ctx, real2.error)
+    except Exception as exc:
+        second = ("construction", None, None, type(exc).__name__)
+    if not core.same(second, (real.status, real.data, real.ctx, real.error)):
+        return ("second-use", f"first Pipeline from these node definitions: {(real.status, real.data, real.ctx, real.error)}; second Pipeline from the SAME definitions: {second}")
     if real.status != "ok":
         return ("reject", f"run: {real.error}: {real.exc}")
     return ("ok", real.data, real.ctx)
@@ -139,6 +150,8 @@ def judge(case: dict, scratch) -> Optional[Tuple[str, str]]:
     exp = expected(case)
     got = run_real(case, scratch)
     tag = f"{case['kind']}"
+    if got[0] == "second-use":
+        return (f"sweep-definition-consumed-by-first-use|{tag}", got[1])
     if exp[0] == "reject":
         if got[0] != "reject":
             return (f"invalid-sweep-accepted|{exp[1]}", f"documentation rejects ({exp[1]}); implementation returned {got[1:]}")
